@@ -850,7 +850,7 @@ def execute(sim, plan):
         for n in [n for n in lay.nests if n not in after]:
             del lay.nests[n]
         sim.event("after", idx, _h(sorted((p, _short(v)) for p, v in model_view(after, lay).items())))
-    sim.nontrivial = interesting and napplied >= 2
+    sim.nontrivial = interesting
     return tree, lay
 
 
